@@ -242,6 +242,8 @@ def evaluate(cases, rep, tag="cases"):
         rep.count_case(cc.replayable(case), nt)
         rep.dist("x".join(io["types"]))
         rep.dist("weighted" if case.get("weighted") else "unweighted")
+        if case.get("filter_fraction"):
+            rep.dist("filtered-query(population fraction != 1)")
         if any(len(s[1]) > 0 for dd in io["subs"] for s in dd):
             rep.dist("has_difference")
         if io["ndim"] == 2 and io["dims"][1] and io["dims"][3]:
@@ -283,6 +285,23 @@ def run(tier, seed):
     # are 1 - O(1e-6) and O(1e-6), where tolerance-style edits (np.isclose, clipping) become visible
     cc.dominate_some(cases, seed)
     cc.empty_wave_some(cases, seed, p=0.3)
+    # FILTERED QUERIES (after seeded change C11-8: the proportion margins of error were multiplied by the
+    # cube's population fraction): one response in five carries filter statistics with a fraction != 1
+    # (old-style filtered / unfiltered weighted n, or filter_stats.filtered_complete.weighted); variance,
+    # standard deviation, standard error and margin of error do not depend on them
+    frng = random.Random(seed * 613 + 3)
+    for case in cases:
+        if frng.random() < 0.2:
+            res = case["response"]["result"]
+            a, b = frng.choice([(50, 200), (3, 7), (1, 1000), (0, 40), (120, 100)])
+            if frng.random() < 0.5:
+                res["filtered"] = {"unweighted_n": a, "weighted_n": a}
+                res["unfiltered"] = {"unweighted_n": b, "weighted_n": b}
+            else:
+                res["filter_stats"] = {"filtered_complete": {"weighted": {"selected": a, "other": b - a if b > a else 1,
+                                                                          "missing": 0}},
+                                       "is_cat_date": False}
+            case["filter_fraction"] = [a, b]
     coq_s, nterms = evaluate(cases, rep)
     rep.cov["rule"] = (
         "random.Random(seed): same survey/insertion generator as C03 (all CAT|CAT_DATE|MR|CA pairings, strands, "
